@@ -61,7 +61,7 @@ func RunOne(t *testing.T, cfg *RunCfg, keepLog bool) *Result {
 		tape.Limit = cfg.TapeLimit
 	}
 	p := runBubble(t, func() {
-		sim := simrt.NewSim(simrt.Config{Seed: cfg.Seed, YieldPermil: cfg.YieldPermil, PermuteMaps: cfg.PermuteMaps, Stick: cfg.Stick, MaxFragment: cfg.MaxFragment}, tape)
+		sim := simrt.NewSim(simrt.Config{Seed: cfg.Seed, YieldPermil: cfg.YieldPermil, PermuteMaps: cfg.PermuteMaps, Stick: cfg.Stick, MaxFragment: cfg.MaxFragment, Slow: cfg.Slow}, tape)
 		defer sim.Stop()
 		e, err := NewEnv(sim, KitchenSink(cfg.SchemaVariant), cfg.Property)
 		if err != nil {
